@@ -18,6 +18,8 @@ func main() {
 		cmdVC(os.Args[2:])
 	case "check":
 		cmdCheck(os.Args[2:])
+	case "coverage":
+		cmdCoverage(os.Args[2:])
 	default:
 		fmt.Fprintln(os.Stderr, "unknown command", os.Args[1])
 		os.Exit(2)
@@ -65,4 +67,59 @@ func cmdVC(args []string) {
 			fmt.Println("   assumptions:", strings.Join(fr.Used, ", "), " inlined:", strings.Join(fr.Inlined, ", "))
 		}
 	}
+}
+
+// cmdCoverage: which library functions are reached by the verifier, and how (under contract, inlined into a function under
+// contract, assumed contract, skipped as logging, not reached). No solver is run.
+func cmdCoverage(args []string) {
+	fs := flag.NewFlagSet("coverage", flag.ExitOnError)
+	repo := fs.String("repo", "/repo", "repository")
+	verif := fs.String("verif", "/verif", "verif dir")
+	fs.Parse(args)
+	P, err := loadProgram(*repo, *verif)
+	if err != nil {
+		fmt.Fprintln(os.Stderr, "load error:", err)
+		os.Exit(2)
+	}
+	status := map[string]string{}
+	for _, con := range P.contracts.All {
+		if con.Kind != "func" {
+			continue
+		}
+		if con.NoBody {
+			status[con.Key] = "TRUSTED (contract assumed, body not verified)"
+			continue
+		}
+		fr := safeGenVC(P, con)
+		st := fmt.Sprintf("VERIFIED (%d obligations; props %s)", len(fr.Obls), strings.Join(con.Props, " "))
+		if len(fr.Errs) > 0 {
+			st = "UNDECIDED: " + fr.Errs[0]
+		}
+		status[con.Key] = st
+		for _, k := range fr.Inlined {
+			if _, ok := status[k]; !ok {
+				status[k] = "inlined into " + con.Key
+			}
+		}
+	}
+	n := map[string]int{}
+	for _, fn := range P.allRepoFuncs() {
+		if !P.isLibrary(fn) {
+			continue
+		}
+		k := P.fnKey(fn)
+		st, ok := status[k]
+		if !ok {
+			if matchAny(P.contracts.Skip, k) {
+				st = "skipped (A-LOG: effect-free logging/formatting)"
+			} else if P.isPure(k) {
+				st = "pure accessor (A-PURE)"
+			} else {
+				st = "NOT REACHED"
+			}
+		}
+		n[strings.Fields(st)[0]]++
+		fmt.Printf("%-90s %s\n", k, st)
+	}
+	fmt.Println("summary:", n)
 }
